@@ -444,10 +444,15 @@ var c08Shapes = []J{
 	{"allOf": []interface{}{J{"type": "object", "properties": J{"p": J{"type": "string"}}}, J{"type": "object", "required": []interface{}{"q"}, "properties": J{"q": J{"type": "integer"}}}}},
 	{"allOf": []interface{}{J{"$ref": "#/components/schemas/Y"}, J{"type": "object", "required": []interface{}{"a", "q"}, "properties": J{"q": J{"type": "integer"}, "r": J{"type": "boolean"}}}}},
 	{"allOf": []interface{}{J{"type": "object", "required": []interface{}{"p"}, "properties": J{"p": J{"type": "string"}}}, J{"type": "object", "properties": J{"q": J{"type": "integer"}}}, J{"type": "object", "required": []interface{}{"s"}, "properties": J{"s": J{"type": "string"}}}}},
+	// references and x-go-name: a reference to a renamed component is the new name; a reference to a component that is
+	// itself nothing but a reference to the renamed one is that component's own name (renaming does not travel)
+	{"$ref": "#/components/schemas/Z"},
+	{"$ref": "#/components/schemas/ZAlias"},
 }
 var c08ShapeDoc = []string{"[]string", "[]Y", "map[string]interface{}", "map[string]interface{}", "map[string]int", "map[string]Y", "Y", "[][]int",
 	"[]X_Item", "[]X_Item", "[]X_Item",
-	"struct{P *string p,omitempty; Q int q}", "struct{A string a; Q int q; R *bool r,omitempty}", "struct{P string p; Q *int q,omitempty; S string s}"}
+	"struct{P *string p,omitempty; Q int q}", "struct{A string a; Q int q; R *bool r,omitempty}", "struct{P string p; Q *int q,omitempty; S string s}",
+	"ZRenamed", "ZAlias"}
 
 // as the member m of H the item type is named after the path to it
 var c08ShapeDocMember = map[int]string{8: "[]HM", 9: "[]H_M_Item", 10: "[]H_M_Item",
@@ -488,14 +493,16 @@ type c08ShapeRow struct {
 func c08ShapeRows() []c08ShapeRow {
 	var rows []c08ShapeRow
 	y := J{"type": "object", "properties": J{"a": J{"type": "string"}}}
+	z := J{"type": "object", "x-go-name": "ZRenamed", "properties": J{"a": J{"type": "string"}}}
+	zAlias := J{"$ref": "#/components/schemas/Z"}
 	for i, sh := range c08Shapes {
-		gs, err := c08Schema(wDoc(J{}, J{"schemas": J{"X": copyJ(sh), "Y": y}}), "X", codegen.Configuration{})
+		gs, err := c08Schema(wDoc(J{}, J{"schemas": J{"X": copyJ(sh), "Y": y, "Z": z, "ZAlias": zAlias}}), "X", codegen.Configuration{})
 		got := "error"
 		if err == nil {
 			got = c08Canon(gs.TypeDecl())
 		}
 		rows = append(rows, c08ShapeRow{i, false, got})
-		hs, err := c08Schema(wDoc(J{}, J{"schemas": J{"H": J{"type": "object", "properties": J{"m": copyJ(sh)}}, "Y": y}}), "H", codegen.Configuration{})
+		hs, err := c08Schema(wDoc(J{}, J{"schemas": J{"H": J{"type": "object", "properties": J{"m": copyJ(sh)}}, "Y": y, "Z": z, "ZAlias": zAlias}}), "H", codegen.Configuration{})
 		got = "error"
 		if err == nil {
 			got = "no-member"
@@ -504,7 +511,7 @@ func c08ShapeRows() []c08ShapeRow {
 					got = m[2]
 				}
 			}
-			if i >= 11 {
+			if i >= 11 && i <= 13 {
 				// an inline composition as a member: the struct is written in place, over several lines
 				got = "no-member"
 				if hv, err := viewOf("package p\ntype H " + hs.GoType + "\n"); err == nil {
